@@ -339,14 +339,3 @@ theorem snorm_assoc (S : SNorm) (hS : S ≠ .unboundedSum) {a b c : α} (ha : I 
 
 theorem unboundedSum_eq (a b : α) : snorm .unboundedSum a b = a + b := rfl
 
-#print axioms snorm_assoc
-#print axioms snorm_mono_left
-#print axioms snorm_ge_max
-#print axioms duality
-#print axioms tnorm_le_min
-#eval (List.map (fun T => tnorm T (1/2 : ℚ) (3/4)) [.algebraicProduct, .boundedDifference, .drasticProduct, .einsteinProduct, .hamacherProduct, .minimum, .nilpotentMinimum])
-#print axioms tnorm_assoc
-#print axioms tnorm_mono_left
-#print axioms tnorm_one
-#print axioms tnorm_zero
-#print axioms tnorm_comm
